@@ -62,6 +62,8 @@ def gen_module(rng, kind, ox, oy, u, limit):
             a = rng.choice(sizes) * u                 # extent along the side
             b = rng.choice(sizes) * u                 # depth away from the trunk
             lo = pos + (rng.choice([0.0, 0.0, 0.1]) * u if k or rng.random() < 0.5 else 0.0)
+            if nb == 1 and kind == "hard_multi" and rng.random() < 0.5:
+                lo = u - a / 2          # centred on the trunk axis: its rigid offset along the side is exactly 0
             if lo + a > 2 * u + 1e-12:
                 break
             if side == "N":
